@@ -35,6 +35,8 @@ type loopSpec struct {
 	invSSA   []*ssa.Function
 	decrFn   string
 	decrSSA  *ssa.Function
+	oldFns   []string
+	oldSSA   map[string]*ssa.Function
 	paramsOf map[string][]string // generated fn -> variable names
 }
 
@@ -753,8 +755,9 @@ func genContract(g *genCtx, c *Contract, out *strings.Builder) error {
 				if err != nil {
 					return "", err
 				}
-				// old(p) in a loop clause: the entry value of parameter p
-				for i, o := range olds {
+				// old(e) in a loop clause: the value of e (an expression over the
+				// parameters) at function entry
+				for _, o := range olds {
 					o = strings.TrimSpace(o)
 					var pt types.Type
 					for j := 0; j < sig.Params().Len(); j++ {
@@ -765,12 +768,32 @@ func genContract(g *genCtx, c *Contract, out *strings.Builder) error {
 					if sig.Recv() != nil && sig.Recv().Name() == o {
 						pt = sig.Recv().Type()
 					}
-					if pt == nil {
-						return "", fmt.Errorf("old(%s) in a loop clause must name a parameter", o)
+					if pt != nil {
+						names = append(names, "old:"+o)
+						typs = append(typs, pt)
+						continue
 					}
-					names = append(names, "old:"+o)
-					typs = append(typs, pt)
-					_ = i
+					// general expression: helper function evaluated in the entry state
+					fsc := pkg.TypesInfo.Scopes[fd.Type]
+					onames, otyps, err := freeLocals(pkg, o, fsc, fd.Body.Lbrace+1)
+					if err != nil {
+						return "", err
+					}
+					texpr := strings.ReplaceAll(o, "verifrt.Snap", "")
+					tv, err := types.Eval(pkg.Fset, pkg.Types, fd.Body.Lbrace+1, texpr)
+					if err != nil {
+						return "", fmt.Errorf("old(%s): %v", o, err)
+					}
+					hn := fmt.Sprintf("verif_oldv_%s_%d_%d", c.ID, n, len(ls.oldFns))
+					var hps []string
+					for i := range onames {
+						hps = append(hps, onames[i]+" "+g.typeStr(otyps[i]))
+					}
+					fmt.Fprintf(out, "func %s(%s) %s { return %s }\n\n", hn, strings.Join(hps, ", "), g.typeStr(tv.Type), o)
+					ls.oldFns = append(ls.oldFns, hn)
+					ls.paramsOf[hn] = onames
+					names = append(names, "old:#"+hn)
+					typs = append(typs, tv.Type)
 				}
 				fn := fmt.Sprintf("verif_%s_%s_%d_%d", kind, c.ID, n, k)
 				var ps []string
